@@ -52,6 +52,12 @@ func (v *Verifier) evalCall(s *State, call *ast.CallExpr) []*Term {
 		sel := ast.Unparen(call.Fun).(*ast.SelectorExpr)
 		recv, recvT = v.evalReceiver(s, sel, fn)
 	}
+	if recv != nil && recvT != nil {
+		if _, isIface := recvT.Underlying().(*types.Interface); isIface {
+			v.oblige(s, "nopanic", "nil-iface", Neq(IType(recv), IntLit(0)), call.Pos(), "method call on nil interface value")
+			s.assume(Neq(IType(recv), IntLit(0)))
+		}
+	}
 	args := v.evalArgs(s, call, sig)
 	return v.callFunc(s, fn, recv, recvT, args, call)
 }
@@ -61,9 +67,10 @@ func (v *Verifier) evalArgs(s *State, call *ast.CallExpr, sig *types.Signature) 
 	np := sig.Params().Len()
 	var args []*Term
 	if len(call.Args) == 1 && np > 1 {
-		// f(g()) with multi-value g
-		rs := v.evalMulti(s, call.Args[0], np)
-		return rs
+		if _, isTuple := v.typeOf(call.Args[0]).(*types.Tuple); isTuple {
+			// f(g()) with multi-value g
+			return v.evalMulti(s, call.Args[0], np)
+		}
 	}
 	for i, a := range call.Args {
 		if sig.Variadic() && i >= np-1 && !call.Ellipsis.IsValid() {
@@ -243,6 +250,22 @@ func (v *Verifier) callFunc(s *State, fn *types.Func, recv *Term, recvT types.Ty
 		return m
 	}
 	fc := v.eng.contracts[full]
+	if recvT != nil {
+		if _, isIface := recvT.Underlying().(*types.Interface); isIface {
+			// a contract on the static interface type of the receiver takes precedence
+			if call != nil {
+				if sel, ok := ast.Unparen(call.Fun).(*ast.SelectorExpr); ok {
+					if selection := v.info.Selections[sel]; selection != nil {
+						if n, ok := selection.Recv().(*types.Named); ok && n.Obj().Pkg() != nil {
+							if c2 := v.eng.contracts[n.Obj().Pkg().Path()+"#"+n.Obj().Name()+"."+fn.Name()]; c2 != nil {
+								fc = c2
+							}
+						}
+					}
+				}
+			}
+		}
+	}
 	if fc != nil && !fc.Flags["inline"] {
 		return v.applyContract(s, fc, fn, recv, recvT, args, call.Pos())
 	}
@@ -307,10 +330,10 @@ type litInfo struct {
 }
 
 type callCtx struct {
-	pkg    *packages.Package
-	info   *types.Info
-	fc     *FuncContract
-	loops  map[ast.Node]int
+	pkg   *packages.Package
+	info  *types.Info
+	fc    *FuncContract
+	loops map[ast.Node]int
 }
 
 func (v *Verifier) pushCtx(pkg *packages.Package, fc *FuncContract, results []*types.Var, body ast.Node) func() {
@@ -498,6 +521,11 @@ func (v *Verifier) runInlined(s *State, body *ast.BlockStmt, sig *types.Signatur
 		}
 	}
 	joined.alloc = v.name(joined, "alloc", al)
+	for _, f := range rets {
+		joined.arank = max(joined.arank, f.St.arank)
+	}
+	joined.arank++
+	v.allocRank[joined.alloc.String()] = joined.arank
 	for o := range s.vars {
 		var cur *Term
 		same := true
@@ -654,7 +682,7 @@ func (v *Verifier) mapVersion(s *State, mt *types.Map) int {
 func (v *Verifier) fillRegion(s *State, sl *Term, elem types.Type, f func(i *Term) *Term) {
 	name, h, es := v.sliceHeap(s, elem)
 	base := SBase(sl)
-	old := Select(h, base)
+	old := v.hsel(s, h, base)
 	na := v.fresh("arr", SArr(SInt, es))
 	j := v.fresh("j", SInt)
 	rel := Sub(j, SOff(sl))
@@ -691,17 +719,17 @@ func (v *Verifier) copyElems(s *State, dst, src, n *Term, elem types.Type) {
 		k := int(n.Int.Int64())
 		vals := make([]*Term, k)
 		for i := 0; i < k; i++ {
-			vals[i] = Select(Select(h, SBase(src)), Add(SOff(src), IntLit(int64(i))))
+			vals[i] = Select(v.hsel(s, h, SBase(src)), Add(SOff(src), IntLit(int64(i))))
 		}
-		arr := Select(h, SBase(dst))
+		arr := v.hsel(s, h, SBase(dst))
 		for i := 0; i < k; i++ {
 			arr = Store(arr, Add(SOff(dst), IntLit(int64(i))), vals[i])
 		}
 		s.heaps[name] = Store(h, SBase(dst), arr)
 		return
 	}
-	srcArr := Select(h, SBase(src))
-	oldDst := Select(h, SBase(dst))
+	srcArr := v.hsel(s, h, SBase(src))
+	oldDst := v.hsel(s, h, SBase(dst))
 	na := v.fresh("arr", SArr(SInt, es))
 	j := v.fresh("j", SInt)
 	in := And(Le(SOff(dst), j), Lt(j, Add(SOff(dst), n)))
@@ -755,10 +783,18 @@ func (v *Verifier) builtinAppend(s *State, call *ast.CallExpr) *Term {
 func (v *Verifier) appendModel(s *State, sl, n *Term, srcAt func(i *Term) *Term, name string, h *Term, es string) *Term {
 	newLen := Add(SLen(sl), n)
 	fits := Le(newLen, SCap(sl))
+	// decide the capacity test now when the path condition settles it
+	if !fits.IsLit {
+		if v.entails(s, fits) {
+			fits = TTrue
+		} else if v.entails(s, Not(fits)) {
+			fits = TFalse
+		}
+	}
 	fits = v.name(s, "fits", fits)
 	s.assume(Le(newLen, IntLitB(maxLen)))
 	// in-place array
-	oldArr := Select(h, SBase(sl))
+	oldArr := v.hsel(s, h, SBase(sl))
 	start := Add(SOff(sl), SLen(sl))
 	var inArr, frArr *Term
 	if n.isInt() && n.Int.Int64() <= 8 {
@@ -796,8 +832,8 @@ func (v *Verifier) appendModel(s *State, sl, n *Term, srcAt func(i *Term) *Term,
 	s.heaps[name] = Ite(fits, Store(h, SBase(sl), inArr), Store(h, nb, frArr))
 	res := MkSlice(Ite(fits, SBase(sl), nb), Ite(fits, SOff(sl), IntLit(0)), newLen, Ite(fits, SCap(sl), newCap))
 	// append(nil-or-empty, nothing) keeps the slice
-	res = Ite(Eq(n, IntLit(0)), sl, res)
-	if !n.isInt() {
+	if !n.isInt() && !fits.isTrue() {
+		res = Ite(Eq(n, IntLit(0)), sl, res)
 		s.heaps[name] = Ite(Eq(n, IntLit(0)), h, s.heaps[name])
 	}
 	return v.name(s, "appr", res)
@@ -846,6 +882,15 @@ func (v *Verifier) applyContract(s *State, fc *FuncContract, fn *types.Func, rec
 	}
 	// havoc what the callee may assign
 	v.havocAssigns(s, pre, fc, env)
+	for _, c := range fc.clauses("ghost") {
+		for _, a := range c.Args {
+			if a.Kind == "ident" {
+				v.ghostVal(pre, a.Name)
+				v.ghostVal(s, a.Name)
+				s.ghost[a.Name] = v.fresh("ghost."+a.Name, SInt)
+			}
+		}
+	}
 	// results
 	var rs []*Term
 	for i := 0; i < sig.Results().Len(); i++ {
@@ -867,6 +912,19 @@ func (v *Verifier) applyContract(s *State, fc *FuncContract, fn *types.Func, rec
 		for _, a := range c.Args {
 			x := env.at(s, pre).tr(a)
 			s.assume(v.freshFact(x, pre.alloc, s.alloc))
+		}
+	}
+	// a slice result that provably is one of the slice arguments is replaced by it,
+	// so that later heap reads see through the call
+	for i, r := range rs {
+		if r.Sort != SSlice {
+			continue
+		}
+		for _, a := range args {
+			if a.Sort == SSlice && !sameTerm(a, NilSlice) && v.entails(s, Eq(r, a)) {
+				rs[i] = a
+				break
+			}
 		}
 	}
 	return rs
@@ -900,9 +958,7 @@ func (v *Verifier) havocAssigns(s *State, pre *State, fc *FuncContract, env *CEn
 	allocated := false
 	bump := func() {
 		if !allocated {
-			na := v.fresh("alloc", SInt)
-			s.assume(Ge(na, s.alloc))
-			s.alloc = na
+			v.bumpAlloc(s)
 			allocated = true
 		}
 	}
@@ -915,13 +971,17 @@ func (v *Verifier) havocAssigns(s *State, pre *State, fc *FuncContract, env *CEn
 }
 
 // havocItem: one element of an assigns list.
-//   x            slice expression: elements x[0:len(x)]
-//   *p / p       pointer: whole pointee
-//   p.f          field f of object p
-//   all(T.f)     field heap of struct T entirely;  all(H)  everything
-//   global(name) package variable
+//
+//	x            slice expression: elements x[0:len(x)]
+//	*p / p       pointer: whole pointee
+//	p.f          field f of object p
+//	all(T.f)     field heap of struct T entirely;  all(H)  everything
+//	global(name) package variable
 func (v *Verifier) havocItem(s *State, pre *State, env *CEnv, a *CExpr) {
 	e := env.at(pre, pre)
+	e.sink = s
+	mark := len(pre.pc)
+	defer e.flush(pre, mark)
 	switch {
 	case a.Kind == "ident" && a.Name == "all":
 		v.havocAll(s)
@@ -945,6 +1005,17 @@ func (v *Verifier) havocItem(s *State, pre *State, env *CEnv, a *CExpr) {
 				s.heaps[name] = v.fresh(name, s.heaps[name].Sort)
 			}
 		}
+		return
+	case a.Kind == "call" && a.X.Kind == "ident" && v.eng.ghostFields[a.X.Name] != nil:
+		gf := v.eng.ghostFields[a.X.Name]
+		h, key := e.ghostFieldHeap(gf, a.Args[0])
+		h = v.getHeap(s, "GF_"+gf.Name, h.Sort)
+		_, vs, _ := arrSorts(h.Sort)
+		nv := v.fresh("gf", vs)
+		if env.resolveType(gf.Result) == bstrType {
+			s.assume(env.at(s, pre).normFact(nv))
+		}
+		s.heaps["GF_"+gf.Name] = Store(h, key, nv)
 		return
 	case a.Kind == "un" && a.Op == "*":
 		a = a.X
@@ -972,7 +1043,7 @@ func (v *Verifier) havocItem(s *State, pre *State, env *CEnv, a *CExpr) {
 	switch u := x.Ty.Underlying().(type) {
 	case *types.Slice:
 		name, h, es := v.sliceHeap(s, u.Elem())
-		old := Select(h, SBase(x.T))
+		old := v.hsel(s, h, SBase(x.T))
 		na := v.fresh("arr", SArr(SInt, es))
 		j := v.fresh("j", SInt)
 		in := And(Le(SOff(x.T), j), Lt(j, Add(SOff(x.T), SLen(x.T))))
